@@ -333,8 +333,8 @@ def _facts_c(rendered) -> typing.Dict[str, bool]:
     """regenerated fix facts, each required of EVERY rendering:
        setuxx_saturating_check (/repo ba46e0a, F-SETUXX-OFFSET-WRAP): SetUxx / setUxx test `len_bits > (capacity_bits - off)` and never add
          the offset to the length;
-       bitspan_pad_wide (design_notes/C14_bitspan_wrap_fix.patch, F-BITSPAN-PAD-TRUNC): no static_cast<uint8_t> in padAndMoveToAlignment;
-       bitspan_subspan_saturating (same patch, F-BITSPAN-SUBSPAN-WRAP): subspan(bits_at, size_bits) detects the wrapped sum and tests
+       bitspan_pad_wide (/repo fcc36ca, F-BITSPAN-PAD-TRUNC): no static_cast<uint8_t> in padAndMoveToAlignment;
+       bitspan_subspan_saturating (fcc36ca, F-BITSPAN-SUBSPAN-WRAP): subspan(bits_at, size_bits) detects the wrapped sum and tests
          `new_offset_bits > (size_available_bits - size_bits)`."""
     sat = pad = sub = True
     for name, fns in rendered:
@@ -351,13 +351,13 @@ def _facts_c(rendered) -> typing.Dict[str, bool]:
     return {'setuxx_saturating_check': sat, 'bitspan_pad_wide': pad, 'bitspan_subspan_saturating': sub}
 
 
-C_PINS = ['c14c', 'c14c_fixed']     # c14c_fixed: with design_notes/C14_bitspan_wrap_fix.patch (dropped / renamed once it has landed)
+C_PINS = ['c14c']     # ONE accepted shape; a pending fix may add a second file here until it has landed
 
 
 def pin_c14c() -> typing.Tuple[bool, str]:
     """Gen_Pin_c14c.v: pin_c14c_ok (the streams equal one of C_PINS), the regenerated fix facts, and the hashes of the C and of the C++
     part of the dump, which Properties/C14.v compares with CPrims.modelled_c_header_sha and CppPrims.modelled_cpp_header_sha
-    (CppPrimsFix.modelled_cpp_header_sha_fix when the bitspan fix is present)."""
+    ."""
     import os
     from . import gen, shape_pin
     out = os.path.join(gen.GEN_DIR, 'Gen_Pin_c14c.v')
